@@ -16,38 +16,104 @@ P = {'id': 'C11',
               'insertion_sort_sorts',
               'replacement_selection_runs',
               'external_sort_sorts',
-              'external_sort_zero_buffer_refuted'],
- 'trusted': ['modelled (M+S): src/algorithms/radix_sort.rs sort_u32_sequential / sort_u64_sequential / AdvancedRadixSort::lsd_radix_sort_sequential '
-             '(counts array, exclusive prefix sums, scatter into a zeroed buffer, pass count from the key width resp. the largest key), counting_sort_u32 and '
-             'the sort_u32 dispatch, insertion sort; src/algorithms/tournament_tree.rs EnhancedLoserTree as coded (linear scan for the least head; the tree '
-             'array is never read), MultiWayMerge::merge_heap / merge_tournament, MergeOperations::merge_two / merge_in_place; '
-             'src/algorithms/external_sort.rs generate_runs + merge_runs (run ids carried in the heap entries as in the code; the number of runs is compared with stats().runs_generated); '
-             'src/algorithms/set_ops.rs all two-pointer and binary-search variants, set_unique; src/algorithms/set_operations.rs bit-mask k-way intersection and union',
-             'spec-only cells (direct oracle + the verified checker is_sorted_perm evaluated in Coq on the implementation output): the parallel paths of '
-             'RadixSort / AdvancedRadixSort (rayon chunks + merge), MSD radix sort (integers and byte strings), tim-sort strategy, KeyValueRadixSort, '
-             'CacheObliviousSort (all strategy branches), SIMD merge, Algorithm::execute wrappers, Vec::external_sort_with_config',
+              'external_sort_zero_buffer_refuted',
+              'msd_sorts_strings',
+              'msd_sorts_ints',
+              'sort_bytes_msd_sorts',
+              'lex_sorted_permutation_unique',
+              'msd_early_return_refuted',
+              'keyed_counting_pass_is_stable_bucketing',
+              'adv_sort_any_strategy_ints',
+              'adv_sort_any_strategy_strings',
+              'adv_sort_str_lsd_collision_refuted',
+              'heap_merge_merges',
+              'mwm_merge_merges',
+              'counting_sort_sorts',
+              'chunk_boundaries_agree',
+              'parallel_sort_sorts_u32',
+              'parallel_sort_sorts_u64',
+              'par_chunk_mismatch_refuted',
+              'constant_digit_pass_is_identity',
+              'lsd_skip_constant_digit_sorts',
+              'lsd_break_refuted',
+              'ms_1small_inter_eq',
+              'ms_1small_inter2_eq',
+              'ms_fast_inter_eq',
+              'ms_fast_inter2_eq',
+              'multipass_merge_sorts',
+              'external_sort_multipass_sorts',
+              'multipass_chunks_exact_refuted',
+              'co_sort_sorts',
+              'kv_sort_keeps_pairs',
+              'merge_tree_merges',
+              'vec_external_sort_sorts',
+              'sort_bytes_unfixed_depth_unbounded',
+              'sort_bytes_depth_bounded',
+              'sort_bytes_fix_keeps_result',
+              'quicksort_sorts',
+              'mergesort_sorts',
+              'co_full_sort_sorts'],
+ 'trusted': ['modelled (M+S): src/algorithms/radix_sort.rs RadixSort::sort_u32 / sort_u64 incl. the chunk + merge paths (par_chunks_mut / chunks with the '
+             'chunk size from the thread count, MultiWayMerge::merge dispatch), sort_u32_sequential / sort_u64_sequential (counts array, exclusive prefix '
+             'sums, scatter into a zeroed buffer), counting_sort_u32, sort_bytes / sort_bytes_msd, KeyValueRadixSort::sort_by_key (per-key position queues); '
+             'AdvancedRadixSort<T>::sort for u32 / u64 / RadixString: select_strategy, is_nearly_sorted, insertion_sort, lsd_radix_sort_sequential (generic in '
+             'the element type), lsd_radix_sort_parallel, msd_radix_sort (257 buckets, insertion cut-off, depth cut-off), RadixString::extract_key; '
+             'src/algorithms/tournament_tree.rs EnhancedLoserTree as coded (linear scan for the least head; the tree array is never read), '
+             'MultiWayMerge::merge / merge_heap / merge_tournament, MergeOperations::merge_two / merge_in_place, SimdOperations::merge_multiple_sorted (merge '
+             'tree); src/algorithms/external_sort.rs generate_runs + merge_runs (run ids carried in the heap entries as in the code; the number of runs is '
+             'compared with stats().runs_generated), Vec::external_sort_with_config; src/algorithms/cache_oblivious.rs cache_oblivious_sort / '
+             'calculate_funnel_width / funnel_sort_recursive / cache_oblivious_merge, sort / select_strategy / cache_aware_sort / hybrid_sort / cache_aware_quicksort (the slice during the Lomuto loop is kept as three segments) / cache_aware_mergesort; src/algorithms/set_ops.rs all two-pointer and binary-search variants, '
+             'set_unique; src/algorithms/set_operations.rs bit-mask k-way intersection and union',
+             'parameters of the theorems (not modelled, quantified over): slice::sort_unstable of the standard library (tim-sort strategy, the "merge" of the '
+             'parallel LSD path, Vec::external_sort below the buffer size) - any function returning the sorted permutation; the size of the rayon pool - any '
+             'thread count >= 1 (the harness reads it off AdvancedRadixSort::stats().threads_used)',
+             'models of code that is NOT in the pinned tree (stated as such): the LSD loop that skips constant-digit passes, merge_runs in passes of '
+             'merge_ways runs, the MSD early return on depth >= max_bytes - each with the theorem that says what such a change must compute and a refutation '
+             'of the wrong variant',
+             'spec-only cells (direct oracle + the verified checker is_sorted_perm evaluated in Coq on the implementation output): the custom-comparator '
+             'loser tree, ReplaceSelectSort::with_comparator, the two largest configurations (default CacheObliviousSort on 5 000 / 1.1 M elements, sort_bytes with a '
+             '40-300 KB common prefix: modelled mechanisms, inputs too large for Coq); inside modelled cells: LSD passes with radix_bits > 8 and inputs above the per-op size limit (90-400 '
+             'elements)',
              'not modelled: BinaryHeap tie-breaking among equal items (irrelevant for integers: equal items are indistinguishable), file I/O and bincode '
-             'framing of the temporary runs, SIMD intrinsics, rayon scheduling'],
+             'framing of the temporary runs, SIMD intrinsics (the SIMD digit counting is taken to compute the counts), prefetching, rayon scheduling (chunks '
+             'are disjoint slices sorted by a sequential function)'],
  'assumptions': ['usize is 64 bits',
                  'agreement of model and code is established on the generated cases only; for integer sorts the output is determined by the input, so that '
-                 'agreement ties the model to the code no more strongly than the oracle does (the number of runs of replacement selection is the one '
-                 'mechanism-level observable compared)'],
+                 'agreement ties the model to the code no more strongly than the oracle does; mechanism-level observables that are compared: the number of '
+                 'runs of replacement selection, AdvancedRadixSort stats().strategy_used and used_parallel, the output order of the string LSD path under key '
+                 'collisions, the values next to their keys in the key-value sort'],
  'level_text': 'Machine-checked Coq theorems about a Gallina model of the code: (1) the counting pass exactly as coded (counts array of 2^r entries, exclusive '
                'prefix sums, left-to-right scatter into a zero-filled buffer) equals stable bucketing by the digit, for every digit width and shift; (2) LSD '
                'radix sort yields the sorted permutation for every key width w, every radix width r >= 1 (incl. r not dividing w) and every input below 2^w, '
                'also with the pass count derived from the largest key (AdvancedRadixSort); (3) the loser tree as coded (repeated selection of the first '
                'strictly least head) merges any number >= 0 of sorted ways, empty ones included, into the sorted union with duplicates kept; two-way merge '
-               'likewise; replacement selection as coded yields sorted runs that together are the input, and run generation + loser-tree merge sorts, for every '
-               'buffer of at least one element (refutation witness for the zero-element buffer of the unfixed code); insertion sort sorts; (4) the two-pointer multiset intersection (both copy directions), union, difference and set_unique equal their filter / '
-               'multiplicity definitions on sorted inputs; (5) a verified checker is_sorted_perm <-> Sorted /\\ Permutation, and uniqueness of the sorted '
-               'permutation. All other entry points and configurations the property names are decided by a direct oracle on the real code (std sort, '
-               'concatenate-and-sort, textbook two-pointer algorithms) and, for sort cells without a mechanism model, by evaluating the verified checker '
-               'in Coq on the implementation output.',
- 'level_note': 'Trusted: Coq kernel + vm_compute; hand-written model; harness generators and oracle. The parallel paths, MSD, cache-oblivious sort, SIMD merge '
-               'and key-value sort have no mechanism model (S-only).',
+               'likewise; replacement selection as coded yields sorted runs that together are the input, and run generation + loser-tree merge sorts, for '
+               'every buffer of at least one element (refutation witness for the zero-element buffer of the unfixed code); insertion sort sorts; (4) the '
+               'two-pointer multiset intersection (both copy directions), union, difference and set_unique equal their filter / multiplicity definitions on '
+               'sorted inputs; (5) a verified checker is_sorted_perm <-> Sorted /\\ Permutation, and uniqueness of the sorted permutation. All other entry '
+               'points and configurations the property names are decided by a direct oracle on the real code (std sort, concatenate-and-sort, textbook '
+               'two-pointer algorithms) and, for sort cells without a mechanism model, by evaluating the verified checker in Coq on the implementation output. '
+               'Extension (36 further theorems): (6) AdvancedRadixSort::msd_radix_sort as coded sorts RadixString (lexicographic byte order) and u32/u64 for '
+               'every insertion threshold, RadixSort::sort_bytes likewise (after fix 50ae740: with the common-prefix skip its nesting depth is at most the number of strings, before it the length of the common prefix); (7) AdvancedRadixSort::sort - whichever strategy is forced or selected adaptively, '
+               'every radix width, threshold and thread count - yields the sorted permutation for u32/u64, and for RadixString under the exact hypothesis that '
+               'the sequential LSD path is not taken on strings with colliding 8-byte keys (refutation witness otherwise: the recorded finding); (8) '
+               'RadixSort::sort_u32/u64 incl. the chunk + merge path for every thread count and threshold: the slices sorted and the slices merged are the '
+               'same list, heap-mode and tournament MultiWayMerge merge, counting sort sorts (refutation witness for mismatched chunk sizes); (9) a coded pass '
+               'over a constant digit is the identity, so a pass-skipping loop equals the coded loop, `break` is refuted; (10) the binary-search and adaptive '
+               'multiset intersections equal the two-pointer ones on sorted inputs with duplicates; (11) multi-pass merging of runs with any fan-in equals the '
+               'coded single pass (chunks_exact refuted); the funnel recursion of cache_oblivious_sort sorts for every threshold and cache geometry; (12) '
+               'KeyValueRadixSort::sort_by_key keeps every key with its value and is stable; the binary merge tree and the Vec external-sort wrapper sort; (13) CacheObliviousSort::sort - strategy selection from the cache hierarchy, insertion sort, Lomuto quicksort, merge sort, funnel sort - yields the sorted permutation for every hierarchy, element size and threshold.',
+ 'level_note': 'Trusted: Coq kernel + vm_compute; hand-written model; harness generators and oracle. The custom-comparator loser tree and the comparator '
+               'variant of the external sort have no mechanism model (S-only); '
+               'slice::sort_unstable and the thread count are parameters of the theorems.',
  'technique': 'Coq proof by induction over passes with a stability invariant (sorted by the low k digits), array-scatter invariant with disjoint regions, '
               'selection-merge induction on fuel, nested induction for two-pointer algorithms; model/implementation differential check by vm_compute; '
-              'differential oracle over every public sort/merge/set-op entry point x configuration; abort-prone calls isolated in child processes',
- 'explanation': 'Unbounded theorems for LSD radix sort (as coded), insertion sort, loser-tree / two-way merge, replacement-selection external sort and the '
-                'two-pointer set operations; verified sorted-permutation checker; differential oracle for everything else (heap-mode merge, binary-search '
-                'set variants and k-way set operations are modelled and correspondence-checked but have no theorem).'}
+              'differential oracle over every public sort/merge/set-op entry point x configuration; abort-prone calls isolated in child processes; induction '
+              'on the recursion depth with a common-prefix invariant (MSD), generic-element scatter invariant (keyed LSD), heap invariant "every way is '
+              'bounded below by its heap entry", well-formed chunk lists for the chunk-boundary agreement, bisection invariants on index ranges (lower/upper '
+              'bound), per-key subsequence equality for stability',
+ 'explanation': 'Unbounded theorems for LSD radix sort (as coded, integers and keyed elements), MSD radix sort (strings and integers), the AdvancedRadixSort '
+                'strategy dispatch, the chunk + merge parallel paths, insertion sort, counting sort, loser-tree / heap / two-way / tree merges, '
+                'replacement-selection external sort (single and multi pass), the funnel sort recursion, key-value pairing and the two-pointer and '
+                'binary-search set operations; verified sorted-permutation checker; differential oracle for everything else (k-way set operations are modelled '
+                'and correspondence-checked but have no theorem).'}
